@@ -63,6 +63,9 @@ CONSTANTS
   Eager,          \* TRUE: the environment's first moves are already made in Init (all clients dialed with their first command
                   \*       sent, all updates submitted, Close and RemoveUser called): the goroutine that consumes each of them
                   \*       may still do so arbitrarily late, so no interleaving is lost, but far fewer states are distinct
+  OpenEnv,        \* TRUE (trace validation only): clients, connector and listener are not modelled - a step that waits for them
+                  \*       (accept, read of a command, read failure, next update, a full queue) is simply allowed; what stays
+                  \*       bound is the order of lock, wait-group, channel-close and lifecycle operations of gluon's goroutines
   Coarse,         \* TRUE: a critical section that holds one lock and contains no other operation on a shared object is ONE
                   \*       step (Lipton reduction: acquire = right mover, release = left mover); nested acquisitions, waits and
                   \*       channel operations stay separate steps, so every deadlock and every lock order is kept
@@ -177,6 +180,11 @@ SecNext(s, after) ==    \* pcs that may follow position `after` ("start" | "R" |
          [] cur[s] = "noop" -> (CASE after = "start" -> {"H.R.acq"} [] after = "R" -> {"H.W.acq"} [] OTHER -> {EndPc(s)})
          [] OTHER           -> (CASE after = "start" -> {"H.Q.acq"} [] OTHER -> {EndPc(s)})
 
+\* the sections of one user.apply: bounded model: [db.Read]; db.Write; forState.  Trace validation: any sequence.
+UNext(after) ==
+  IF FreeSections THEN {"U.R.acq", "U.W.acq", "U.sl.acq", "U.sel"}
+  ELSE CASE after = "start" -> {"U.R.acq", "U.W.acq"} [] after = "R" -> {"U.W.acq"} [] after = "W" -> {"U.sl.acq"} [] OTHER -> {"U.sel"}
+
 AcqAt(g, p) ==
   LET k == g[1]  id == g[2] IN
   CASE
@@ -243,8 +251,8 @@ RelAt(g, p) ==
     [] k = "h" /\ p = "H.Q.rel" -> [l |-> DB(UOf(id)), to |-> SecNext(id, "Q")]
     [] k = "loop" /\ p = "RS.R.rel" -> [l |-> DB(UOf(id)), to |-> {"RS.sl.acq"}]
     [] k = "loop" /\ p = "RS.W.rel" -> [l |-> DB(UOf(id)), to |-> {"RS.close"}]
-    [] k = "upd" /\ p = "U.R.rel" -> [l |-> DB(id), to |-> {"U.W.acq"}]
-    [] k = "upd" /\ p = "U.W.rel" -> [l |-> DB(id), to |-> {"U.sl.acq"}]
+    [] k = "upd" /\ p = "U.R.rel" -> [l |-> DB(id), to |-> UNext("R")]
+    [] k = "upd" /\ p = "U.W.rel" -> [l |-> DB(id), to |-> UNext("W")]
     [] OTHER -> NoRel
 
 RelOf(g) == RelAt(g, pc[g])
@@ -276,7 +284,7 @@ Closed(c) == c \in chan
 Close(c) == chan' = chan \cup {c}
 ConnDown(s) == cli[s] = "gone" \/ srvClosed[s]
 Complete(s) == infl' = [infl EXCEPT ![s] = FALSE]
-Enqueue(T) == qItems' = [s \in Sessions |-> IF s \in T /\ ~qClosed[s] THEN qItems[s] + 1 ELSE qItems[s]]
+Enqueue(T) == qItems' = [s \in Sessions |-> IF s \in T /\ ~qClosed[s] /\ ~OpenEnv THEN qItems[s] + 1 ELSE qItems[s]]
 Touch(k, who) == touches' = touches \cup {<<k, who>>}
 
 -----------------------------------------------------------------------------
@@ -287,7 +295,7 @@ AccStep ==
   \/ /\ pc[Acc] = "A.accept" /\ backlog # {} /\ listener = "open"
      /\ \E s \in backlog : backlog' = backlog \ {s} /\ accHand' = s
      /\ Go(Acc, "A.send") /\ NoLab /\ UNCHANGED <<chan, srvClosed>> /\ UNCHANGED AccUnch
-  \/ /\ pc[Acc] = "A.accept" /\ listener = "closed"
+  \/ /\ pc[Acc] = "A.accept" /\ (listener = "closed" \/ OpenEnv)
      /\ Close(<<"connCh", "-">>) /\ Go(Acc, "end") /\ SetLab(Acc, "go.end", "accept")
      /\ UNCHANGED <<backlog, accHand, srvClosed>> /\ UNCHANGED AccUnch
   \* repaired design only: select { case connCh <- conn: ; case <-serveDoneCh: conn.Close(); return }
@@ -305,11 +313,13 @@ SrvStep ==
   \/ /\ pc[Srv] = "S.sel" /\ (Closed(<<"serveDone", "-">>) \/ (Closed(<<"connCh", "-">>) /\ pc[Acc] = "end"))
      /\ srvClosed' = [s \in Sessions |-> srvClosed[s] \/ pc[Loop(s)] # "off"]
      /\ wg' = [wg EXCEPT !.serveWG = @ - 1]
-     /\ Go(Srv, "end") /\ SetLab(Srv, "wg.done", "serveWG")
+     /\ Go(Srv, "end") /\ SetLab(Srv, "go.end", "serve")
      /\ UNCHANGED <<chan, accHand>> /\ UNCHANGED SrvUnch
-  \/ /\ pc[Srv] = "S.sel" /\ pc[Acc] = "A.send"     \* the session goroutine greets and starts its command reader
-     /\ pc' = [pc EXCEPT ![Acc] = "A.accept", ![Loop(accHand)] = "L.sel", ![Rd(accHand)] = "R.read"]
-     /\ SetLab(Loop(accHand), "go.start", "session")
+  \/ /\ pc[Srv] = "S.sel"     \* a connection arrives: the session goroutine greets and starts its command reader
+     /\ \E s \in Sessions :
+          /\ IF OpenEnv THEN pc[Loop(s)] = "off" ELSE pc[Acc] = "A.send" /\ s = accHand
+          /\ pc' = [pc EXCEPT ![Acc] = IF OpenEnv THEN @ ELSE "A.accept", ![Loop(s)] = "L.sel", ![Rd(s)] = "R.read"]
+          /\ SetLab(Loop(s), "go.start", "session")
      /\ accHand' = "-"
      /\ UNCHANGED <<wg, chan, srvClosed>> /\ UNCHANGED SrvUnch
 
@@ -321,13 +331,13 @@ RdUnch == <<lk, wg, listener, backlog, accHand, cli, infl, sent, srvClosed, mode
             dbClosed, qItems, qChan, qClosed, connQ, fwdHeld, submitted, arg, touches, afterClose>>
 RdStep(s) ==
   LET g == Rd(s) IN
-  \/ /\ pc[g] = "R.read" /\ inbox[s] \notin {"none", "litdata"} /\ ~srvClosed[s]
+  \/ /\ pc[g] = "R.read" /\ inbox[s] \notin {"none", "litdata"} /\ ~srvClosed[s] /\ (Coarse => inbox[s] = "lit")
      /\ cur' = [cur EXCEPT ![s] = inbox[s]] /\ inbox' = [inbox EXCEPT ![s] = "none"]
      /\ Go(g, IF inbox[s] = "lit" THEN "R.lit" ELSE "R.send") /\ NoLab /\ UNCHANGED chan /\ UNCHANGED RdUnch
   \/ /\ pc[g] = "R.lit" /\ inbox[s] = "litdata" /\ ~srvClosed[s]      \* mid-literal: the rest arrived
      /\ inbox' = [inbox EXCEPT ![s] = "none"] /\ Go(g, "R.send") /\ NoLab /\ UNCHANGED <<chan, cur>> /\ UNCHANGED RdUnch
   \/ /\ pc[g] \in {"R.read", "R.lit"}   \* conn.Read fails: closed by the server, or by the client after all it sent was read
-     /\ \/ srvClosed[s]
+     /\ \/ srvClosed[s] \/ OpenEnv
         \/ cli[s] = "gone" /\ ((pc[g] = "R.read" /\ inbox[s] = "none") \/ (pc[g] = "R.lit" /\ inbox[s] # "litdata"))
      /\ Close(<<"cmdCh", s>>) /\ Go(g, "end") /\ SetLab(g, "ch.close", "cmdCh") /\ UNCHANGED <<inbox, cur>> /\ UNCHANGED RdUnch
   \/ /\ pc[g] = "R.send" /\ Closed(<<"ctx", s>>)
@@ -342,7 +352,14 @@ RdStep(s) ==
 HStart(k) == CASE k = "caps" -> "H.caps.1" [] k = "login" -> "H.login.u" [] k \in {"auth", "sel", "lit"} -> "H.cmd.u"
                [] k = "noop" -> "H.noop" [] OTHER -> "H.fin"
 
-LoopUnch == <<listener, backlog, accHand, cli, inbox, sent, userIn, dbClosed, connQ, fwdHeld, submitted, arg, afterClose>>
+LoopUnch2 == <<listener, backlog, accHand, cli, sent, userIn, dbClosed, connQ, fwdHeld, submitted, arg, afterClose>>
+LoopUnch == <<inbox, LoopUnch2>>
+\* a command is ready for the loop: the reader offers it on cmdCh
+\* (Coarse: the reader's Read and its send on cmdCh are private to the session: the loop takes the command in one step)
+FromInbox(s) == Coarse /\ pc[Rd(s)] = "R.read" /\ inbox[s] \notin {"none", "litdata", "lit"} /\ ~srvClosed[s]
+CmdReady(s) == pc[Rd(s)] = "R.send" \/ FromInbox(s) \/ (OpenEnv /\ pc[Rd(s)] = "R.read")
+CmdKinds0(s) == IF OpenEnv THEN AllCmdKinds ELSE {IF pc[Rd(s)] = "R.send" THEN cur[s] ELSE inbox[s]}
+TakeCmd(s) == inbox' = IF pc[Rd(s)] = "R.send" \/ OpenEnv THEN inbox ELSE [inbox EXCEPT ![s] = "none"]
 \* leaving serve: the deferred cancel() runs before Serve's deferred handleWG.Wait()
 \* (Coarse: when no handler is running, Wait returns at once and done()'s close(eventCh) follows: one step)
 AfterWait(s) == IF sstate[s] = NoUser \/ Bug = "doneNoRelease" THEN "L.connclose" ELSE "RS.R.acq"
@@ -353,40 +370,42 @@ Leave(g, s) == IF Coarse /\ wg.handleWG[s] = 0
 LoopStep(s) ==
   LET g == Loop(s)  u == sstate[s] IN
   \* select: an update from the state's queue channel (in the main loop and inside handleIdle); update.Filter(state) may drop it
-  \/ /\ pc[g] \in {"L.sel", "L.idle"} /\ u # NoUser /\ qChan[s] > 0
-     /\ qChan' = [qChan EXCEPT ![s] = @ - 1]
+  \/ /\ pc[g] \in {"L.sel", "L.idle"} /\ u # NoUser /\ (qChan[s] > 0 \/ OpenEnv)
+     /\ qChan' = [qChan EXCEPT ![s] = IF @ > 0 THEN @ - 1 ELSE 0]
      /\ (Go(g, "L.apply.acq") \/ Go(g, pc[g]))
      /\ Touch("loop", "own") /\ SetLab(g, "ch.recv", "updateQueue")
      /\ UNCHANGED <<lk, wg, chan, infl, srvClosed, cur, mode, sstate, states, qItems, qClosed>> /\ UNCHANGED LoopUnch
   \* ApplyUpdate inside db.Write: update.Apply -> PushResponder; while idling every response goes to idleCh (unbuffered;
   \* the IDLE sender takes it and writes it to the connection)
   \/ /\ pc[g] = "L.apply.in" /\ mode[s] = "idle" /\ ~Closed(<<"idleCh", s>>)
-     /\ Go(g, "L.apply.out") /\ SetLab(g, "ch.send", "idleCh")
+     /\ Go(g, "L.apply.out") /\ NoLab
      /\ UNCHANGED <<lk, wg, chan, infl, srvClosed, cur, mode, sstate, states, qItems, qChan, qClosed, touches>> /\ UNCHANGED LoopUnch
   \/ /\ pc[g] \in {"L.apply.in", "L.apply.out"}
      /\ lk' = Unlocked(DB(u), g) /\ Go(g, IF mode[s] = "idle" THEN "L.idle" ELSE "L.sel") /\ SetLab(g, "rel", "db")
      /\ UNCHANGED <<wg, chan, infl, srvClosed, cur, mode, sstate, states, qItems, qChan, qClosed, touches>> /\ UNCHANGED LoopUnch
   \* select: a command from the reader (rendezvous on the unbuffered cmdCh)
-  \/ /\ pc[g] = "L.sel" /\ pc[Rd(s)] = "R.send"
-     /\ LET k == cur[s] IN
-        CASE k = "logout" -> /\ Go2(g, "L.logout.u", Rd(s), "R.read") /\ UNCHANGED <<wg, infl, cur>>
-          [] k = "idle" /\ u # NoUser -> /\ Go2(g, "L.idle.acq", Rd(s), "R.read") /\ UNCHANGED <<wg, infl, cur>>
+  \/ /\ pc[g] = "L.sel" /\ CmdReady(s)
+     /\ \E k \in CmdKinds0(s) :
+        /\ SetLab(g, "ch.recv", "cmd." \o k)
+        /\ CASE k = "logout" -> /\ Go2(g, "L.logout.u", Rd(s), "R.read") /\ cur' = [cur EXCEPT ![s] = k] /\ UNCHANGED <<wg, infl>>
+          [] k = "idle" /\ u # NoUser -> /\ Go2(g, "L.idle.acq", Rd(s), "R.read") /\ cur' = [cur EXCEPT ![s] = k] /\ UNCHANGED <<wg, infl>>
           [] k = "done" \/ (k = "idle" /\ u = NoUser) ->       \* parse error -> BAD / ErrNotAuthenticated -> NO
                /\ Go2(g, "L.sel", Rd(s), "R.read") /\ Complete(s) /\ cur' = [cur EXCEPT ![s] = "none"] /\ UNCHANGED wg
           [] OTHER -> /\ pc' = [pc EXCEPT ![g] = "L.wait", ![Rd(s)] = "R.read", ![H(s)] = HStart(k)]   \* handleWG.Go
-                      /\ wg' = [wg EXCEPT !.handleWG[s] = @ + 1] /\ UNCHANGED <<infl, cur>>
-     /\ SetLab(g, "ch.recv", "cmdCh")
-     /\ UNCHANGED <<lk, chan, srvClosed, mode, sstate, states, qItems, qChan, qClosed, touches>> /\ UNCHANGED LoopUnch
+                      /\ wg' = [wg EXCEPT !.handleWG[s] = @ + 1] /\ cur' = [cur EXCEPT ![s] = k] /\ UNCHANGED infl
+     /\ TakeCmd(s)
+     /\ UNCHANGED <<lk, chan, srvClosed, mode, sstate, states, qItems, qChan, qClosed, touches>> /\ UNCHANGED LoopUnch2
   \* for res := range respCh: the handler closed respCh; or res.Send failed (connection down) while the handler may still run:
   \* return fmt.Errorf("failed to send response to client") (a helper goroutine drains respCh)
   \/ /\ pc[g] = "L.wait" /\ pc[H(s)] \in {"off", "end"}
      /\ Go(g, "L.sel") /\ Complete(s) /\ cur' = [cur EXCEPT ![s] = "none"] /\ NoLab
      /\ UNCHANGED <<lk, wg, chan, srvClosed, mode, sstate, states, qItems, qChan, qClosed, touches>> /\ UNCHANGED LoopUnch
-  \/ /\ pc[g] = "L.wait" /\ ConnDown(s)
+  \/ /\ pc[g] = "L.wait" /\ (ConnDown(s) \/ OpenEnv)
      /\ Leave(g, s) /\ Complete(s) /\ NoLab
      /\ UNCHANGED <<lk, wg, srvClosed, cur, mode, sstate, states, qItems, qChan, qClosed, touches>> /\ UNCHANGED LoopUnch
   \* select: cmdCh closed / state.Done()
-  \/ /\ pc[g] = "L.sel" /\ (Closed(<<"cmdCh", s>>) \/ (u # NoUser /\ Closed(<<"doneCh", s>>)))
+  \* (OpenEnv: also a failed write to the client, an invalidated state, too many bad commands)
+  \/ /\ pc[g] = "L.sel" /\ (Closed(<<"cmdCh", s>>) \/ (u # NoUser /\ Closed(<<"doneCh", s>>)) \/ OpenEnv)
      /\ Leave(g, s) /\ NoLab
      /\ UNCHANGED <<lk, wg, infl, srvClosed, cur, mode, sstate, states, qItems, qChan, qClosed, touches>> /\ UNCHANGED LoopUnch
   \* handle_logout.go:handleLogout: BYE and the tagged OK are written while both locks are held
@@ -404,12 +423,12 @@ LoopStep(s) ==
      /\ UNCHANGED <<wg, srvClosed, sstate, states, qItems, qChan, qClosed>> /\ UNCHANGED LoopUnch
   \* handleIdle's select: a command (DONE -> OK, anything else -> BAD), cmdCh closed, state.Done(): return; deferred endIdle: close(idleCh)
   \/ /\ pc[g] = "L.idle"
-     /\ \/ /\ pc[Rd(s)] = "R.send" /\ Go2(g, "L.sel", Rd(s), "R.read") /\ Complete(s) /\ cur' = [cur EXCEPT ![s] = "none"]
-        \/ /\ (Closed(<<"cmdCh", s>>) \/ Closed(<<"doneCh", s>>)) /\ Go(g, "L.sel") /\ UNCHANGED <<infl, cur>>
+     /\ \/ /\ CmdReady(s) /\ Go2(g, "L.sel", Rd(s), "R.read") /\ Complete(s) /\ cur' = [cur EXCEPT ![s] = "none"] /\ TakeCmd(s)
+        \/ /\ (Closed(<<"cmdCh", s>>) \/ Closed(<<"doneCh", s>>)) /\ Go(g, "L.sel") /\ UNCHANGED <<infl, cur, inbox>>
      /\ mode' = [mode EXCEPT ![s] = "normal"]
      /\ chan' = IF Bug = "idleNotStopped" THEN chan ELSE chan \cup {<<"idleCh", s>>}
      /\ SetLab(g, "ch.close", "idleCh")
-     /\ UNCHANGED <<lk, wg, srvClosed, sstate, states, qItems, qChan, qClosed, touches>> /\ UNCHANGED LoopUnch
+     /\ UNCHANGED <<lk, wg, srvClosed, sstate, states, qItems, qChan, qClosed, touches>> /\ UNCHANGED LoopUnch2
   \* Serve: deferred s.handleWG.Wait(); then session.go:done: close(s.eventCh); s.state != nil -> state.ReleaseState -> user.removeState
   \/ /\ pc[g] = "L.hwait" /\ wg.handleWG[s] = 0
      /\ Close(<<"eventCh", s>>)
@@ -419,7 +438,7 @@ LoopStep(s) ==
   \* user.go:removeState fn() under statesLock W: other.HasMessage(...) of every other state (reads foreign snapshots); delete(user.states, id)
   \/ /\ pc[g] = "RS.sl.in"
      /\ states' = [states EXCEPT ![u] = @ \ {s}]
-     /\ IF ~FixPeek /\ states[u] \ {s} # {} THEN Touch("loop", "foreign") ELSE UNCHANGED touches
+     /\ IF ~FixPeek /\ ~OpenEnv /\ states[u] \ {s} # {} THEN Touch("loop", "foreign") ELSE UNCHANGED touches
      /\ IF Bug = "removeStateHoldsLock" THEN UNCHANGED lk ELSE lk' = Unlocked(StatesLock(u), g)
      /\ Go(g, "RS.W.acq") /\ SetLab(g, "rel", "statesLock")
      /\ UNCHANGED <<wg, chan, infl, srvClosed, cur, mode, sstate, qItems, qChan, qClosed>> /\ UNCHANGED LoopUnch
@@ -488,9 +507,15 @@ HStep(s) ==
      /\ lk' = Unlocked(StatesLock(u), g) /\ Go(g, "H.Q.rel") /\ SetLab(g, "rel", "statesLock")
      /\ UNCHANGED <<wg, arg, sstate, states>> /\ UNCHANGED HUnch
   \* deferred close(resCh); handleWG.Done
-  \/ /\ pc[g] = "H.fin"
+  \* (Coarse: the loop waiting in `range respCh` goes on in the same step - nothing else can observe the difference)
+  \/ /\ pc[g] = "H.fin" /\ ~(Coarse /\ pc[Loop(s)] = "L.wait")
      /\ wg' = [wg EXCEPT !.handleWG[s] = @ - 1] /\ Go(g, "end") /\ SetLab(g, "wg.done", "handleWG")
      /\ UNCHANGED <<lk, arg, sstate, states, qItems, touches>> /\ UNCHANGED HUnch
+  \/ /\ pc[g] = "H.fin" /\ Coarse /\ pc[Loop(s)] = "L.wait"
+     /\ wg' = [wg EXCEPT !.handleWG[s] = @ - 1] /\ Go2(g, "end", Loop(s), "L.sel") /\ NoLab
+     /\ Complete(s) /\ cur' = [cur EXCEPT ![s] = "none"]
+     /\ UNCHANGED <<lk, arg, sstate, states, qItems, touches, chan, listener, backlog, accHand, cli, inbox, sent, srvClosed, mode, userIn,
+                    dbClosed, qChan, qClosed, connQ, fwdHeld, submitted, afterClose>>
 
 \* pump(s): async/queued_channel.go:NewQueuedChannel closure { defer close(ch)
 \*   for { item, ok := pop() (cond.Wait until items or closed; closed and empty -> !ok); !ok -> return
@@ -499,9 +524,9 @@ PumpUnch == <<lk, wg, chan, listener, backlog, accHand, cli, inbox, infl, sent, 
               dbClosed, qClosed, connQ, fwdHeld, submitted, arg, touches, afterClose>>
 PumpStep(s) ==
   LET g == Pump(s) IN
-  \/ /\ pc[g] = "P.pop" /\ qItems[s] > 0
+  \/ /\ pc[g] = "P.pop" /\ qItems[s] > 0 /\ ~OpenEnv
      /\ qItems' = [qItems EXCEPT ![s] = @ - 1] /\ Go(g, "P.send") /\ NoLab /\ UNCHANGED qChan /\ UNCHANGED PumpUnch
-  \/ /\ pc[g] = "P.pop" /\ qItems[s] = 0 /\ qClosed[s]
+  \/ /\ pc[g] = "P.pop" /\ (qItems[s] = 0 \/ OpenEnv) /\ qClosed[s]
      /\ Go(g, "end") /\ SetLab(g, "go.end", "pump") /\ UNCHANGED <<qItems, qChan>> /\ UNCHANGED PumpUnch
   \/ /\ pc[g] = "P.send" /\ qChan[s] < ChanCap
      /\ qChan' = [qChan EXCEPT ![s] = @ + 1] /\ Go(g, "P.pop") /\ NoLab /\ UNCHANGED qItems /\ UNCHANGED PumpUnch
@@ -534,18 +559,21 @@ UpdUnch == <<listener, backlog, accHand, cli, inbox, infl, sent, srvClosed, cur,
              dbClosed, qChan, qClosed, connQ, submitted, arg, afterClose>>
 UpdStep(u) ==
   LET g == Upd(u) IN
-  \/ /\ pc[g] = "U.sel" /\ pc[Fwd(u)] = "F.send" /\ ~Closed(<<"forwardQuit", u>>)
-     /\ (Go2(g, "U.R.acq", Fwd(u), "F.sel") \/ Go2(g, "U.W.acq", Fwd(u), "F.sel"))
+  \/ /\ pc[g] = "U.sel" /\ ~OpenEnv /\ pc[Fwd(u)] = "F.send" /\ ~Closed(<<"forwardQuit", u>>)
+     /\ \E n \in UNext("start") : Go2(g, n, Fwd(u), "F.sel")
+     /\ SetLab(g, "ch.recv", "updatesCh") /\ UNCHANGED <<lk, wg, chan, qItems, fwdHeld, touches>> /\ UNCHANGED UpdUnch
+  \/ /\ pc[g] = "U.sel" /\ OpenEnv
+     /\ \E n \in UNext("start") : Go(g, n)
      /\ SetLab(g, "ch.recv", "updatesCh") /\ UNCHANGED <<lk, wg, chan, qItems, fwdHeld, touches>> /\ UNCHANGED UpdUnch
   \/ /\ pc[g] = "U.sel" /\ (Closed(<<"updateQuit", u>>) \/ Closed(<<"updatesCh", u>>))
      /\ wg' = [wg EXCEPT !.updateWG[u] = @ - 1] /\ Go(g, "end") /\ SetLab(g, "wg.done", "updateWG")
      /\ UNCHANGED <<lk, chan, qItems, fwdHeld, touches>> /\ UNCHANGED UpdUnch
   \/ /\ pc[g] = "U.sl.in"
-     /\ IF fwdHeld[u] = "idchg" /\ ~FixIDChanged
+     /\ IF fwdHeld[u] = "idchg" /\ ~FixIDChanged /\ ~OpenEnv
           THEN /\ (IF states[u] # {} THEN Touch("upd", "foreign") ELSE UNCHANGED touches) /\ UNCHANGED qItems
           ELSE /\ Enqueue(states[u]) /\ UNCHANGED touches
      /\ fwdHeld' = [fwdHeld EXCEPT ![u] = "none"]
-     /\ lk' = Unlocked(StatesLock(u), g) /\ Go(g, "U.sel") /\ SetLab(g, "rel", "statesLock")
+     /\ lk' = Unlocked(StatesLock(u), g) /\ (\E n \in UNext("SL") : Go(g, n)) /\ SetLab(g, "rel", "statesLock")
      /\ UNCHANGED <<wg, chan>> /\ UNCHANGED UpdUnch
 
 -----------------------------------------------------------------------------
@@ -588,8 +616,8 @@ CloserStep ==
      /\ UNCHANGED <<lk, wg, chan, userIn, dbClosed, arg>> /\ UNCHANGED KUnch
   \/ /\ pc[g] = "C.next"
      /\ IF \E u \in Users : userIn[u]
-          THEN /\ \E u \in Users : userIn[u] /\ arg' = [arg EXCEPT ![g] = u]
-               /\ Go(g, "K.quit") /\ UNCHANGED lk /\ NoLab
+          THEN /\ \E u \in Users : userIn[u] /\ arg' = [arg EXCEPT ![g] = u] /\ SetLab(g, "call", "user.close:" \o u)
+               /\ Go(g, "K.quit") /\ UNCHANGED lk
           ELSE /\ lk' = Unlocked(UsersLock, g) /\ Go(g, "end") /\ UNCHANGED arg /\ SetLab(g, "rel", "usersLock")
      /\ UNCHANGED <<wg, chan, userIn, dbClosed>> /\ UNCHANGED KUnch
   \/ CloseUserStep(g)
@@ -598,8 +626,9 @@ CloserStep ==
 RemStep(u) ==
   LET g == Rem(u) IN
   \/ /\ pc[g] = "X.chk"
-     /\ IF userIn[u] THEN Go(g, "K.quit") /\ arg' = [arg EXCEPT ![g] = u] ELSE Go(g, "X.rel") /\ UNCHANGED arg
-     /\ NoLab /\ UNCHANGED <<lk, wg, chan, userIn, dbClosed>> /\ UNCHANGED KUnch
+     /\ IF userIn[u] THEN Go(g, "K.quit") /\ arg' = [arg EXCEPT ![g] = u] /\ SetLab(g, "call", "user.close:" \o u)
+                   ELSE Go(g, "X.rel") /\ UNCHANGED arg /\ NoLab
+     /\ UNCHANGED <<lk, wg, chan, userIn, dbClosed>> /\ UNCHANGED KUnch
   \/ /\ pc[g] = "X.rel" /\ lk' = Unlocked(UsersLock, g) /\ Go(g, "end") /\ SetLab(g, "rel", "usersLock")
      /\ UNCHANGED <<wg, chan, userIn, dbClosed, arg>> /\ UNCHANGED KUnch
   \/ CloseUserStep(g)
@@ -650,9 +679,11 @@ CloseListener ==       \* the application closes its listener once Server.Close 
   /\ NoLab /\ UNCHANGED <<pc, accHand, inbox, sent, connQ, submitted>> /\ UNCHANGED EnvUnch
 
 Env ==
-  \/ \E s \in Sessions : Dial(s) \/ SendLitData(s) \/ Disconnect(s) \/ \E k \in CmdKinds : SendCmd(s, k)
-  \/ \E u \in Users : StartRemove(u) \/ \E k \in UpdKinds : Submit(u, k)
-  \/ StartClose \/ CloseListener
+  \/ ~OpenEnv /\ \E s \in Sessions : Dial(s) \/ SendLitData(s) \/ Disconnect(s) \/ \E k \in CmdKinds : SendCmd(s, k)
+  \/ ~OpenEnv /\ \E u \in Users : \E k \in UpdKinds : Submit(u, k)
+  \/ ~OpenEnv /\ CloseListener
+  \/ \E u \in Users : StartRemove(u)
+  \/ StartClose
 
 -----------------------------------------------------------------------------
 Step(g) ==
@@ -709,12 +740,18 @@ Init ==
 \* Fairness: every goroutine that can take a step eventually does; the application eventually calls Close and closes
 \* its listener afterwards; a client that was asked for the rest of a literal sends it or disconnects.
 \* Nothing else is assumed about clients or the connector.
-Fairness ==
+FairnessPerGoroutine ==
   /\ \A g \in G : WF_vars(Step(g))
   /\ WF_vars(StartClose) /\ WF_vars(CloseListener)
   /\ \A s \in Sessions : WF_vars(SendLitData(s))
+\* In the bounded model every step consumes something (a command, an update, a program position of a goroutine that
+\* never goes back): there is no cycle besides stuttering, so weak fairness of the disjunction below forces exactly the
+\* same behaviours to continue as FairnessPerGoroutine does, and TLC checks one fairness condition instead of |G| + 3.
+Progress == (\E g \in G : Step(g)) \/ StartClose \/ CloseListener \/ (\E s \in Sessions : SendLitData(s))
+Fairness == WF_vars(Progress)
 
 Spec == Init /\ [][Next]_vars /\ Fairness
+SpecPerGoroutine == Init /\ [][Next]_vars /\ FairnessPerGoroutine
 
 -----------------------------------------------------------------------------
 \* Properties
@@ -747,7 +784,9 @@ NoGoroutineLeft == (AppDone /\ listener = "closed" /\ Quiet) => AllEnded
 \* liveness (under Fairness)
 CloseReturns == <>(pc[Closer] = "end")
 RemoveUserReturns == \A u \in Users : (pc[Rem(u)] # "idle") ~> (pc[Rem(u)] = "end")
-EveryCommandCompletes == \A s \in Sessions : infl[s] ~> ~infl[s]
+\* a command the client waits for is answered, or the connection is closed under it
+Waiting(s) == infl[s] /\ ~srvClosed[s]
+EveryCommandCompletes == \A s \in Sessions : Waiting(s) ~> ~Waiting(s)
 NothingLeftEventually == <>[]AllEnded
 
 \* instances for the cfg files (cfg files cannot contain functions)
@@ -756,4 +795,8 @@ PL_None == [s \in Sessions |-> NoUser]
 OneUser == CHOOSE u \in Users : TRUE
 PL_All == [s \in Sessions |-> OneUser]
 SymSessions == Permutations(Sessions)
+\* two users, sessions split between them in a fixed way
+PL_Split == LET us == CHOOSE q \in [1..2 -> Users] : q[1] # q[2]
+                ss == CHOOSE q \in [1..Cardinality(Sessions) -> Sessions] : \A i, j \in DOMAIN q : i # j => q[i] # q[j]
+            IN [s \in Sessions |-> IF s = ss[1] THEN us[1] ELSE us[2]]
 =============================================================================
